@@ -243,6 +243,30 @@ def _corridor_cases(tier, rng, kind):
         s = (rng.randint(rs[0][0], rs[0][2]), rng.randint(rs[0][1], rs[0][3]))
         e = (rng.randint(rs[-1][0], rs[-1][2]), rng.randint(rs[-1][1], rs[-1][3]))
         yield {"kind": kind, "rects": rs, "s": list(s), "e": list(e), "den": den}
+    # fins: a rectangle that is narrower than BOTH its neighbours on one side (an inward step of the wall), passed closely by a
+    # long straight stretch of the geodesic that does not bend at it: start next to that wall in the first rectangle, then the
+    # fin, then a rectangle reaching far back under it, then a short last rectangle entered through a narrow door far from the
+    # end point, so that the geodesic's only bend is at that door.  A curve fitted to the stretch bulges towards the fin; whether
+    # it pokes into the step depends on the slide factor the fitter ends up with.  Mirrored at random.
+    for _ in range(4000 if tier == "quick" else 40000):
+        f = rng.randint(4, 30)
+        r0 = [0, 0, f + rng.randint(3, 12), rng.randint(30, 110)]
+        r1 = [f, r0[3], f + rng.randint(60, 200), r0[3] + rng.randint(40, 110)]
+        r2 = [-rng.randint(10, 70), r1[3], f + rng.randint(12, 45), r1[3] + rng.randint(40, 110)]
+        r3 = [r2[2] - rng.randint(2, 9), r2[3], r2[2] + rng.randint(40, 160), r2[3] + rng.randint(8, 40)]
+        rs = [r0, r1, r2, r3]
+        if rng.random() < 0.35:
+            # one more rectangle on top, as wide as the fin's neighbours
+            h = rng.randint(20, 60)
+            rs = [[-rng.randint(0, 30), -h, r0[2] + rng.randint(0, 40), 0]] + rs
+        s_ = [rng.randint(rs[0][0], min(rs[0][0] + 3, rs[0][2])) if len(rs) == 4 else rng.randint(0, 3), rs[0][1]]
+        e_ = [rng.randint(r3[0] + (r3[2] - r3[0]) // 2, r3[2]), r3[3]]
+        if len(rs) == 5 and not (rs[0][0] <= s_[0] <= rs[0][2]):
+            s_[0] = rs[0][0]
+        if rng.random() < 0.5:
+            rs = [[-r[2], r[1], -r[0], r[3]] for r in rs]
+            s_, e_ = [-s_[0], s_[1]], [-e_[0], e_[1]]
+        yield {"kind": kind, "rects": rs, "s": s_, "e": e_, "den": 1}
     # random larger corridors (k up to 12), integer corners up to 40
     for _ in range(1500 if tier == "quick" else 25000):
         k = rng.randint(2, 12)
